@@ -155,7 +155,7 @@ func fuzzValue(r *rand.Rand, g *docGen, key string, depth int) any {
 		case 3:
 			return g.plainDoc()
 		}
-		d := 10 + r.Intn(30)
+		d := 8 + r.Intn(14)
 		return strings.Repeat("<blockquote>", d) + "deep <hr> text" + strings.Repeat("</blockquote>", d)
 	case "mediaType":
 		return pick(r, []string{"text/html", "text/markdown", "text/gemini", "text/plain", "text/html; charset=utf-8", "application/json", "bogus", ""})
